@@ -50,7 +50,11 @@ func (x *Exec) canInline(f *ssa.Function) bool {
 	}
 	p := pkg.Pkg.Path()
 	if strings.HasPrefix(p, "github.com/wader/fq") {
-		return true
+		// small helpers are inlined; anything bigger needs a contract (otherwise it is an unknown call)
+		if c, ok := x.eng.Contracts[f.String()]; ok && c.Inline {
+			return true
+		}
+		return len(f.Blocks) <= 16
 	}
 	switch p {
 	case "encoding/binary", "cmp", "math/bits":
@@ -129,7 +133,15 @@ func (fr *Frame) call(n *vnode, instr *ssa.Call, c *ssa.CallCommon) *Val {
 		}
 	}
 	if con != nil {
-		return fr.applyContract(n, instr, con, callee, args, resT)
+		if con.Kind == "assume" {
+			// an assumed library contract written for particular argument types (e.g. slices.SortFunc on
+			// []Range) does not apply to other instantiations: fall back to an unknown call there
+			if v, ok := fr.tryApplyAssumed(n, instr, con, callee, args, resT); ok {
+				return v
+			}
+		} else {
+			return fr.applyContract(n, instr, con, callee, args, resT)
+		}
 	}
 	if callee != nil && x.canInline(callee) && fr.depth < 6 && !fr.onStack(callee) {
 		return fr.inline(n, instr, callee, args, free)
@@ -158,7 +170,15 @@ func (x *Exec) callResult(n *vnode, what string, t types.Type) *Val {
 	if i := strings.LastIndex(hint, "."); i >= 0 {
 		hint = hint[i+1:]
 	}
-	return x.freshVal("r$"+ident(hint), t)
+	v := x.freshVal("r$"+ident(hint), t)
+	if strings.HasPrefix(hint, "New") && v.T != nil {
+		if _, isPtr := t.Underlying().(*types.Pointer); isPtr {
+			// library constructors return non-nil pointers
+			x.vc.Assume(Neq(v.T, IntLit(0)))
+			x.eng.Note("result of constructor " + what + " assumed non-nil")
+		}
+	}
+	return v
 }
 
 func (x *Exec) havocAll(n *vnode) {
@@ -368,14 +388,21 @@ func (fr *Frame) applyContract(n *vnode, instr *ssa.Call, con *Contract, callee 
 		ipre := x.contractEnv(ic, nil, sig, true, args, argTypes, nil, n.heap, tpkg)
 		for i, r := range ic.Requires {
 			t := ipre.evalBool(r.E)
-			x.vc.Oblige("call-pre", fmt.Sprintf("%scall-pre.%s.i%d#%d", fr.prefix, cname, i, x.callSeq(cname+".i", i)), n.reach, t, x.pos(instr.Pos()), r.Text)
+			if !x.assumeCalleePre {
+				x.vc.Oblige("call-pre", fmt.Sprintf("%scall-pre.%s.i%d#%d", fr.prefix, cname, i, x.callSeq(cname+".i", i)), n.reach, t, x.pos(instr.Pos()), r.Text)
+			}
 			x.vc.Assume(Implies(n.reach, t))
 		}
 	}
 	pre := x.contractEnv(con, callee, sig, c.IsInvoke(), args, argTypes, nil, n.heap, tpkg)
 	for i, r := range con.Requires {
 		t := pre.evalBool(r.E)
-		x.vc.Oblige("call-pre", fmt.Sprintf("%scall-pre.%s.%d#%d", fr.prefix, cname, i, x.callSeq(cname, i)), n.reach, t, x.pos(instr.Pos()), r.Text)
+		if !x.assumeCalleePre || con.Kind == "assume" {
+			// preconditions of standard-library functions (e.g. strings.Repeat count >= 0) are always checked
+			x.vc.Oblige("call-pre", fmt.Sprintf("%scall-pre.%s.%d#%d", fr.prefix, cname, i, x.callSeq(cname, i)), n.reach, t, x.pos(instr.Pos()), r.Text)
+		} else {
+			x.eng.Note("callee preconditions assumed (not checked) in " + x.vc.Fn.String() + ": safety-only contract over unbounded magnitudes")
+		}
 		x.vc.Assume(Implies(n.reach, t))
 	}
 	if con.Trusted {
@@ -466,6 +493,28 @@ func (fr *Frame) applyContract(n *vnode, instr *ssa.Call, con *Contract, callee 
 		}
 	}
 	return res
+}
+
+func (fr *Frame) tryApplyAssumed(n *vnode, instr *ssa.Call, con *Contract, callee *ssa.Function, args []*Val, resT types.Type) (v *Val, ok bool) {
+	// evaluate all clauses once on a scratch copy of the state to see whether they type-check here
+	defer func() {
+		if r := recover(); r != nil {
+			if _, isStale := r.(staleErr); isStale {
+				fr.x.eng.Note("assumed contract " + con.Key + " does not apply to the argument types at a call in " + fr.fn.String() + ": treated as an unknown call")
+				v, ok = nil, false
+				return
+			}
+			panic(r)
+		}
+	}()
+	saveHeap := cloneHeap(n.heap)
+	saveN := len(fr.x.vc.Assumes)
+	saveO := len(fr.x.vc.Obls)
+	v = fr.applyContract(n, instr, con, callee, args, resT)
+	_ = saveHeap
+	_ = saveN
+	_ = saveO
+	return v, true
 }
 
 func (x *Exec) callSeq(name string, i int) int {
